@@ -153,22 +153,31 @@ class Array:
         )
 
     def __getitem__(self, indexers):
-        selected_ranges = compute_selected_ranges(self.byte_ranges, indexers[0])
-        grouped = groupby_chunks(selected_ranges, chunksize=self.records_per_chunk)
-        merged = merge_chunk_info(grouped, chunk_offsets=self.chunk_offsets)
-        tasks = [relocate_ranges(info, ranges) for info, ranges in merged]
+        row_indexer = indexers[0]
+        selected_ranges = compute_selected_ranges(self.byte_ranges, row_indexer)
+        if not selected_ranges:
+            # empty selection: nothing to read
+            data = np.empty((0, *self.shape[1:]), dtype=self.dtype)
+        else:
+            grouped = groupby_chunks(selected_ranges, chunksize=self.records_per_chunk)
+            merged = merge_chunk_info(grouped, chunk_offsets=self.chunk_offsets)
+            tasks = [relocate_ranges(info, ranges) for info, ranges in merged]
 
-        with self.fs.open(self.url, mode="rb") as f:
-            data_ = []
-            for chunk_info, ranges in tasks:
-                chunk = read_chunk(f, **chunk_info)
-                raw_bytes = extract_ranges(chunk, ranges)
-                chunk_data = [parse_data(part, type_code=self.type_code) for part in raw_bytes]
-                data_.extend(chunk_data)
+            with self.fs.open(self.url, mode="rb") as f:
+                data_ = []
+                for chunk_info, ranges in tasks:
+                    chunk = read_chunk(f, **chunk_info)
+                    raw_bytes = extract_ranges(chunk, ranges)
+                    chunk_data = [
+                        parse_data(part, type_code=self.type_code) for part in raw_bytes
+                    ]
+                    data_.extend(chunk_data)
 
-            data = np.stack(data_, axis=0)
+                data = np.stack(data_, axis=0)
 
-        new_indexers = tuple(cons(slice(None), indexers[1:]))
+        # an integer selects a single row and drops the axis, just like in numpy
+        rows = 0 if isinstance(row_indexer, (int, np.integer)) else slice(None)
+        new_indexers = tuple(cons(rows, indexers[1:]))
         return data[new_indexers]
 
     @property
